@@ -40,7 +40,7 @@ var props = map[string]PropSpec{
 			{Name: "solver.VP_C02_pb_fixpoint", Kind: "L", Params: map[string]int{"card": 1, "maxsigns": 3, "learn": 1}, Bounds: "2-3 cardinality constraints sharing variables over 4-5 variables (4 structures), degrees and 3 signs symbolic; from the state New builds, every order and polarity of decisions until all variables are assigned or propagation reports a conflict: a reported conflict constraint is falsified, and a conflict-free total assignment satisfies every constraint", Require: []string{"total-assignment", "conflict"}},
 			{Name: "solver.VP_C02_pb_fixpoint", Kind: "L", Params: map[string]int{"stfrom": 4, "nstruct": 1, "maxsigns": 9, "learn": 1}, Bounds: "a binary constraint and two weighted constraints (coefficients 1-2, degree 3) over 4 variables, every sign, every sequence of decisions; at the first conflict the real conflict analysis (learnClause) is run and its result must follow from the problem for a symbolic assignment", Require: []string{"conflict", "learned-clause", "learned-unit"}},
 			{Name: "solver.VP_C14_pb_skeleton", Kind: "E", Params: map[string]int{"nskel": 3, "maxsigns": 8}, Bounds: "3 PB/cardinality skeletons over 4-6 variables (pigeon-hole as cardinality constraints, weighted constraints sharing variables, parity) with 8 symbolic signs, through ParsePBConstrs, default strategy", Require: []string{"sat", "unsat"}},
-			{Name: "solver.VP_C14_pb_skeleton", Kind: "E", Params: map[string]int{"skfrom": 5, "nskel": 2, "maxsigns": 8, "dshift": 1}, Bounds: "2 skeletons over 4 variables in which one constraint forces literals of an earlier one", Require: []string{"sat", "unsat"}},
+			{Name: "solver.VP_C14_pb_skeleton", Kind: "E", Params: map[string]int{"skfrom": 5, "nskel": 2, "maxsigns": 8, "dshift": 1}, Bounds: "2 skeletons over 4 variables in which one constraint forces literals of an earlier one", Require: []string{"sat", "parse-unsat"}},
 			{Name: "solver.VP_C02_card_skeleton", Kind: "E", Params: map[string]int{"n6": 1}, Bounds: "one cardinality constraint at-least-k over 5 variables (k in 2..4), every sign and rotation, alone or with an at-most-one and a clause, through ParseCardConstrs", Require: []string{"sat"}},
 		},
 		Thorough: []HarnessRun{
